@@ -128,7 +128,7 @@ def plan(tier, seed):
     specs = []
     for d in DRIVERS:
         for j in range(2 if tier == "quick" else 6):
-            specs.append({"name": f"{d}{j}", "driver": d, "j": j, "seed": seed, "sims": 10 if tier == "quick" else 40, "steps": 25 if tier == "quick" else 60})
+            specs.append({"name": f"{d}{j}", "driver": d, "j": j, "seed": seed, "sims": 30 if tier == "quick" else 60, "steps": 25 if tier == "quick" else 60})
     return specs
 
 
